@@ -56,6 +56,95 @@ print(json.dumps({'n': n, 'bad': bad[:8]}))
 '''
 
 
+# BOUNDED / ground conformance of the section codecs on concrete regions: the SPEC text is computed here from specs/p8spec.py, the real
+# from_lines / to_lines run in the real interpreter.  Covers all 65,536 sfx note words, all byte values in every gfx / music column.
+_CODEC = r'''
+import json, sys
+from pico8.gfx.gfx import Gfx
+from pico8.gff.gff import Gff
+from pico8.map.map import Map
+from pico8.sfx.sfx import Sfx
+from pico8.music.music import Music
+CLS = {'gfx': Gfx, 'gff': Gff, 'map': Map, 'sfx': Sfx, 'music': Music}
+cases = json.load(open(sys.argv[1]))
+bad, n = [], 0
+for sec, data_hex, rows_hex in cases:
+    n += 1
+    data = bytes.fromhex(data_hex); rows = [bytes.fromhex(r) for r in rows_hex]
+    cls = CLS[sec]
+    try:
+        got = bytes(cls.from_lines(list(rows), version=8)._data)
+        if got != data:
+            k = next(i for i in range(min(len(got), len(data))) if got[i] != data[i]) if len(got) == len(data) else -1
+            if len(bad) < 8: bad.append([sec, 'from_lines(spec text) differs from the region at byte %d (%d vs %d bytes)' % (k, len(got), len(data))])
+        out = list(cls(data=bytearray(data), version=8).to_lines())
+        if b''.join(out) != b''.join(rows):
+            k = next((i for i in range(min(len(out), len(rows))) if out[i] != rows[i]), -1)
+            if len(bad) < 8: bad.append([sec, 'to_lines differs from the spec text at row %d: %r vs %r' % (k, out[k][:40] if 0 <= k < len(out) else None, rows[k][:40] if 0 <= k < len(rows) else None)])
+    except Exception as e:
+        if len(bad) < 8: bad.append([sec, 'raised %s: %s' % (type(e).__name__, e)])
+print(json.dumps({'n': n, 'bad': bad}))
+'''
+
+
+def codec_cases(seed, big):
+    import random
+    from pyvc.values import E, SSeq
+    from specs import p8spec as P
+    E.reset('lia')
+    E.concrete = True
+    r = random.Random(seed)
+    cases = []
+
+    def text(rowsq):
+        return [bytes(rowsq.get(i).get(j) for j in range(rowsq.get(i).n)).hex() for i in range(rowsq.n)]
+    try:
+        for k in range(32):                      # all 65,536 note words: word w = k * 2048 + n at note n of the region
+            d = bytearray(0x1100)
+            for n in range(2048):
+                w = k * 2048 + n
+                d[(n // 32) * 68 + (n % 32) * 2] = w & 255
+                d[(n // 32) * 68 + (n % 32) * 2 + 1] = w >> 8
+            for i in range(64):
+                d[i * 68 + 64: i * 68 + 68] = bytes(r.randrange(256) for _ in range(4))
+            cases.append(('sfx', bytes(d).hex(), text(P.sfx_rows(SSeq.of(bytes(d))))))
+        for k in range(0, 256, 32 if not big else 8):          # every byte value in every column of a gfx row
+            d = bytes((i + k + (i // 64) * 7) & 255 for i in range(0x2000))
+            cases.append(('gfx', d.hex(), text(P.gfx_rows(SSeq.of(d)))))
+        for k in range(4):                       # every value of every channel byte / flag combination
+            d = bytearray((i + 64 * k) & 255 for i in range(0x100))
+            for i in range(3, 0x100, 4):
+                d[i] &= 0x7f                     # the one bit the text format has no place for
+            cases.append(('music', bytes(d).hex(), text(P.music_rows(SSeq.of(bytes(d))))))
+        for sec, size in (('gff', 0x100), ('map', 0x1000), ('gfx', 0x2000), ('music', 0x100)):
+            d = bytearray(r.randrange(256) for _ in range(size))
+            if sec == 'music':
+                for i in range(3, 0x100, 4):
+                    d[i] &= 0x7f
+            rows = {'gff': lambda x: P.hex_rows(x, 128), 'map': lambda x: P.hex_rows(x, 128), 'gfx': P.gfx_rows, 'music': P.music_rows}[sec](SSeq.of(bytes(d)))
+            cases.append((sec, bytes(d).hex(), text(rows)))
+    finally:
+        E.concrete = False
+    return cases
+
+
+def codec_native(seed, big):
+    import tempfile
+    cases = codec_cases(seed, big)
+    with tempfile.NamedTemporaryFile('w', suffix='.json', delete=False) as fh:
+        json.dump(cases, fh)
+    env = {'PYTHONPATH': source.REPO, 'PATH': '/usr/bin:/bin', 'PYTHONDONTWRITEBYTECODE': '1'}
+    try:
+        r = subprocess.run([source.REAL_PY, '-c', _CODEC, fh.name], capture_output=True, text=True, env=env, cwd='/', timeout=900)
+    except subprocess.TimeoutExpired:
+        return {'timeout': True}
+    finally:
+        os.unlink(fh.name)
+    if r.returncode != 0:
+        return {'error': r.stderr[-1500:]}
+    return json.loads(r.stdout)
+
+
 def native(seed, n):
     env = {'PYTHONPATH': source.REPO, 'PATH': '/usr/bin:/bin', 'PYTHONDONTWRITEBYTECODE': '1', 'HOME': '/nonexistent'}
     script = _NATIVE.replace('@VERIF@', repr(VERIF)).replace('@REPO@', repr(source.REPO)).replace('@SEED@', str(seed)).replace('@N@', str(n))
@@ -86,8 +175,15 @@ def run(tier, seed):
     if nat.get('timeout') or nat.get('error'):
         chk.undecide('BOUNDED:c16/whole-file run did not finish: %s' % (nat.get('error') or 'timeout'))
         nat = {}
+    cod = codec_native(seed, tier == 'thorough')
+    if cod.get('timeout') or cod.get('error'):
+        chk.undecide('BOUNDED:c16/codec conformance run did not finish: %s' % (cod.get('error') or 'timeout'))
+        cod = {}
+    nat = dict(nat, n=nat.get('n', 0) + cod.get('n', 0), bad=(nat.get('bad') or []) + (cod.get('bad') or []))
     chk.native_witness = nat.get('bad')
-    chk.bounded = {'rule': 'BOUNDED: the carts PICO-8 saved as both .p8 and .p8.png load to identical data regions through the real loaders; carts '
+    chk.bounded = {'rule': 'BOUNDED: the real section codecs against the spec text on concrete regions (all 65,536 sfx note words, every byte '
+                           'value in every gfx and music column, random gff / map regions): from_lines(spec text) == region and to_lines(region) '
+                           '== spec text.  The carts PICO-8 saved as both .p8 and .p8.png load to identical data regions through the real loaders; carts '
                            'with distinct / random regions written by the real .p8.png writer and read by a reference PNG decoder + 2-bit unpack '
                            'show gfx, map, gff, music, sfx at their PICO-8 addresses and the version at 0x8000, and read back unchanged',
                    'evaluations': nat.get('n', 0), 'failures': len(nat.get('bad') or [])}
